@@ -95,8 +95,23 @@ func (u *Unit) structMemberFacts(st *State, srt, term string, depth int) {
 }
 
 // VerifyFunc symbolically executes a function and collects its obligations.
+// autoPropagate: functions that are checked for "no error is dropped" although their contract does not ask
+// for it (C17 covers every function of the module that returns an error)
+var autoPropagate = map[string]bool{}
+
 func VerifyFunc(prog *Program, fi *FuncInfo, tier string) (res *UnitResult) {
-	u := newUnit(prog, fi, fi.Con)
+	con := fi.Con
+	if autoPropagate[fi.Key] {
+		if con == nil {
+			con = &Contract{Pkg: shortPkg(fi.Pkg.PkgPath), FuncName: fi.Key, Key: fi.Key, Propagates: true, Props: []string{"C17"}, PropProps: []string{"C17"}, Loops: map[int]*LoopSpec{}, MapRange: map[int]string{}}
+		} else if !con.Propagates {
+			c2 := *con
+			c2.Propagates = true
+			c2.PropProps = []string{"C17"}
+			con = &c2
+		}
+	}
+	u := newUnit(prog, fi, con)
 	u.tier = tier
 	res = &UnitResult{Key: fi.Key, Reg: u.reg}
 	defer func() {
@@ -113,6 +128,22 @@ func VerifyFunc(prog *Program, fi *FuncInfo, tier string) (res *UnitResult) {
 	fi.loops = collectLoops(fi.Decl)
 	closureLits = collectClosureLits(fi.Pkg.TypesInfo, fi.Decl.Body)
 	u.atAsserts = map[*ast.CallExpr][]*Clause{}
+	u.errDropSites = map[*ast.CallExpr]bool{}
+	if u.con != nil {
+		for _, d := range u.con.ErrDrops {
+			f := strings.Fields(d)
+			sites := findCallSites(prog, fi, f[0])
+			if len(sites) == 0 {
+				prog.CS.Stale = append(prog.CS.Stale, fmt.Sprintf("%s: errdrop site %s not found", fi.Key, f[0]))
+			}
+			for _, sn := range sites {
+				if site, ok := sn.(*ast.CallExpr); ok {
+					u.errDropSites[site] = true
+				}
+			}
+			u.reg.note("declared error drop in " + fi.Key + ": " + d)
+		}
+	}
 	if u.con != nil {
 		for _, c := range u.con.Asserts {
 			if c.At == "return" {
@@ -209,6 +240,19 @@ func VerifyFunc(prog *Program, fi *FuncInfo, tier string) (res *UnitResult) {
 		u.reg.axiom(g)
 		u.reg.note("assumed axiom: " + ax.Text)
 	}
+	// behavioural subtyping: what the interface contract demands from callers is enough for this implementation
+	if u.con != nil {
+		for _, ic := range u.ifaceContracts() {
+			pre := st.clone()
+			for _, c := range ic.Requires {
+				pre.assume(u.evalClause(c, pre, u.entry, nil, u.entryBindings(nil)))
+			}
+			for k, c := range u.con.Requires {
+				g := u.evalClause(c, pre, u.entry, nil, u.entryBindings(nil))
+				u.oblige(pre, fmt.Sprintf("iface#%s#pre#%d", ic.Key, k+1), "call-pre", g, u.clauseProps(c), c, "precondition follows from the contract of the interface method "+ic.Key+": "+c.Text, nil)
+			}
+		}
+	}
 	// preconditions
 	if u.con != nil {
 		for _, c := range u.con.Requires {
@@ -245,6 +289,18 @@ func (u *Unit) checkPost(st *State, vals []Val, ord int) {
 			name = "post#" + c.Label
 		}
 		u.oblige(st, name, "post", g, u.clauseProps(c), c, "postcondition: "+c.Text, nil)
+	}
+	// behavioural subtyping: the implementation of an interface method keeps the interface contract's
+	// postconditions (callers through the interface only know that contract)
+	for _, ic := range u.ifaceContracts() {
+		for k, c := range ic.Ensures {
+			g := u.evalClause(c, st, u.entry, nil, rv)
+			props := c.Props
+			if len(props) == 0 {
+				props = ic.Props
+			}
+			u.oblige(st, fmt.Sprintf("iface#%s#post#%d", ic.Key, k+1), "post", g, props, c, "postcondition of the interface method "+ic.Key+": "+c.Text, nil)
+		}
 	}
 	if u.con.Propagates {
 		sig := u.fi.Obj.Type().(*types.Signature)
@@ -608,5 +664,36 @@ func sortedStrings(m map[string]bool) []string {
 		out = append(out, k)
 	}
 	sort.Strings(out)
+	return out
+}
+
+// ifaceContracts: contracts of the interface methods the function under verification implements
+func (u *Unit) ifaceContracts() []*Contract {
+	if u.fi == nil || u.fi.Obj == nil {
+		return nil
+	}
+	u.prog.ifaceOnce.Do(func() {
+		u.prog.ifaceOf = map[string][]string{}
+		var keys []string
+		for k := range u.prog.CS.Funcs {
+			keys = append(keys, k)
+		}
+		sort.Strings(keys)
+		for _, k := range keys {
+			if u.prog.Funcs[k] != nil {
+				continue
+			}
+			for _, impl := range u.prog.implementationsOf(k) {
+				u.prog.ifaceOf[impl] = append(u.prog.ifaceOf[impl], k)
+			}
+		}
+	})
+	var out []*Contract
+	for _, k := range u.prog.ifaceOf[u.fi.Key] {
+		if c := u.prog.CS.Funcs[k]; c != nil {
+			out = append(out, c)
+			u.usedContracts[k] = true
+		}
+	}
 	return out
 }
